@@ -296,6 +296,54 @@ func runC20Nodes(r *rand.Rand, sh *core.Shard, workers, opsPer int) (sig, what s
 		}
 		return sig, s, ""
 	}
+	// ---- burst churn on one endpoint: many simultaneous connects, then simultaneous
+	// disconnects, so that updates of the same endpoint's count race each other
+	// through registry -> routing table -> published gossip
+	if ns := live(); len(ns) > 0 {
+		n := ns[0]
+		for round := 0; round < 12 && firstFail.Load() == nil; round++ {
+			const k = 12
+			clients := make([]*rawClient, k)
+			var bw sync.WaitGroup
+			for i := 0; i < k; i++ {
+				bw.Add(1)
+				go func(i int) {
+					defer bw.Done()
+					clients[i], _ = dialRaw(n, "burst", "")
+				}(i)
+			}
+			bw.Wait()
+			for i := 0; i < k; i++ {
+				if clients[i] == nil {
+					continue
+				}
+				bw.Add(1)
+				go func(i int) {
+					defer bw.Done()
+					if i%3 == round%3 {
+						return // stays connected until the next round ends
+					}
+					clients[i].sess.Close()
+				}(i)
+			}
+			bw.Wait()
+			var d string
+			okb := core.WaitUntil(20*time.Second, 2*time.Millisecond, func() bool {
+				mgr, cl, gos := localViews(n)
+				d = fmt.Sprintf("registry %v, routing table %v, published gossip %v", mgr, cl, gos)
+				return sameEps(mgr, cl) && sameEps(cl, gos)
+			})
+			for i := 0; i < k; i++ {
+				if clients[i] != nil {
+					clients[i].sess.Close()
+				}
+			}
+			sh.Count("burst_rounds", 1)
+			if !okb {
+				return "inconsistent-at-quiescence", "after a burst of simultaneous connects and disconnects on one endpoint the node's views still disagree 20 s later: " + d, ""
+			}
+		}
+	}
 	// ---- quiescence: close go-away'd upstreams' state by shutting everything down that we still hold? no:
 	// keep what is connected, and require the three local views and the cross-node mirror to agree.
 	upMu.Lock()
@@ -535,7 +583,7 @@ func init() {
 			"the race detector only sees the interleavings that occurred; repetitions and high-frequency task invocation widen, not enumerate, them",
 			"the E4 concurrent phases of C05 and C15 run under the same detector and count towards this property's reach",
 		},
-		RequireCounters: []string{"operations", "requests_served", "status_reads", "upstream_churn_events", "node_restarts", "gossip_local_writes", "gossip_task_invocations", "gossip_watcher_events", "final_consistency_checks"},
+		RequireCounters: []string{"operations", "requests_served", "status_reads", "upstream_churn_events", "node_restarts", "burst_rounds", "gossip_local_writes", "gossip_task_invocations", "gossip_watcher_events", "final_consistency_checks"},
 		MaxCounters:     []string{"slowest_operation_ms"},
 		Shards:          func(string) int { return 16 },
 		Timeout: func(tier string) time.Duration {
